@@ -38,6 +38,54 @@ theorem arrival_order_irrelevant (l1 l2 : List Trial) (hd : distinctKeys l1)
   intro c hc
   exact minByKey_le h c ((hsame c).mpr hc)
 
+/-- **Across the two evaluators of the fast path**: what goes to the main compression / acceptance
+    test is the result in hand or a completed trial of the second evaluator, and neither the result
+    in hand nor any completed trial of the second evaluator has a smaller key. -/
+theorem handoff_minimal (prev : Option Trial) (published : List Trial) (r : Trial)
+    (h : handoff prev (minByKey published) = some r) :
+    (prev = some r ∨ r ∈ published) ∧ (∀ p, prev = some p → ¬ keyLt p r) ∧
+    (∀ c ∈ published, ¬ keyLt c r) := by
+  cases hm : minByKey published with
+  | none =>
+    have hp : published = [] := by
+      cases published with
+      | nil => rfl
+      | cons a l => simp [minByKey] at hm
+    subst hp
+    cases prev with
+    | none => simp [handoff, hm] at h
+    | some p =>
+      simp only [handoff, hm, Option.some.injEq] at h
+      subst h
+      exact ⟨Or.inl rfl, (fun q hq => by cases hq; exact keyLt_irrefl _), (fun c hc => by cases hc)⟩
+  | some m =>
+    have hmem := minByKey_mem hm
+    have hle := minByKey_le hm
+    cases prev with
+    | none =>
+      simp only [handoff, hm, Option.some.injEq] at h
+      subst h
+      exact ⟨Or.inr hmem, (fun p hp => by cases hp), (fun c hc => not_keyLt_iff_keyLe.mpr (hle c hc))⟩
+    | some p =>
+      simp only [handoff, hm] at h
+      by_cases hlt : keyLt m p
+      · simp only [hlt, if_true, Option.some.injEq] at h
+        subst h
+        exact ⟨Or.inr hmem, (fun q hq => by cases hq; exact keyLt_asymm hlt),
+          (fun c hc => not_keyLt_iff_keyLe.mpr (hle c hc))⟩
+      · simp only [hlt, if_false, Option.some.injEq] at h
+        subst h
+        refine ⟨Or.inl rfl, (fun q hq => by cases hq; exact keyLt_irrefl _), ?_⟩
+        intro c hc hcp
+        have h1 : keyLe m c := hle c hc
+        have h2 : keyLe p m := not_keyLt_iff_keyLe.mp hlt
+        have h3 : keyLe p c := keyLe_trans h2 h1
+        exact (not_keyLt_iff_keyLe.mpr h3) hcp
+
+/-- the code before the repair took the second evaluator's winner unconditionally: with a result of
+    82 bytes in hand, a trial of 94 bytes (IDAT 70 within the limit 82, plus 24 bytes of PLTE) won -/
+example : handoff (some ⟨0, 0, 58, 24, 60⟩) (minByKey [⟨0, 4, 70, 24, 60⟩]) = some ⟨0, 0, 58, 24, 60⟩ := by decide
+
 /-- Non-vacuity: every tie-break level decides some pair. -/
 example : keyLt ⟨0,0,10,0,5⟩ ⟨1,0,11,0,5⟩ ∧ keyLt ⟨0,0,10,0,4⟩ ⟨1,0,10,0,5⟩ ∧
           keyLt ⟨0,1,10,0,5⟩ ⟨1,2,10,0,5⟩ ∧ keyLt ⟨1,3,10,0,5⟩ ⟨0,3,10,0,5⟩ := by decide
